@@ -4,7 +4,7 @@ From Coq Require Export NArith ZArith List Bool Lia.
 Export ListNotations.
 Open Scope N_scope.
 
-Definition bytes := list N.
+Notation bytes := (list N) (only parsing).
 
 Definition lenN {A : Type} (l : list A) : N := N.of_nat (length l).
 
@@ -42,8 +42,17 @@ Definition un16 (a b : N) : N := a * 256 + b.
 Definition un32 (a b c d : N) : N := ((a * 256 + b) * 256 + c) * 256 + d.
 
 (* ---- streams: BytesIO.read(n) returns up to n bytes ------------------- *)
-Definition take (n : N) (s : bytes) : bytes := firstn (N.to_nat n) s.
-Definition drop (n : N) (s : bytes) : bytes := skipn (N.to_nat n) s.
+(* recursion on the list, so that a huge n (2^32-1) costs nothing *)
+Fixpoint take (n : N) (s : bytes) : bytes :=
+  match s with
+  | [] => []
+  | x :: r => if n =? 0 then [] else x :: take (n - 1) r
+  end.
+Fixpoint drop (n : N) (s : bytes) : bytes :=
+  match s with
+  | [] => []
+  | x :: r => if n =? 0 then s else drop (n - 1) r
+  end.
 
 (* unpack of a fixed-size header: exactly n bytes or struct.error *)
 Definition read_exact (n : N) (s : bytes) : result (bytes * bytes) :=
